@@ -21,14 +21,14 @@ use crate::seams::{key, Cfg, JournalOp, ManualClock, MemIO, BLOCK_DIR};
 
 const HEADER: usize = 389;
 
-fn node_cfg(w: &World) -> Cfg {
+pub fn node_cfg(w: &World) -> Cfg {
     let mut c = w.cfg.clone();
     // saito-rust never sets this flag: the node always runs (and restarts) in loading mode
     c.blockchain.initial_loading_completed = false;
     c
 }
 
-fn deliver(n: &mut FullNode, bytes: &[u8]) -> Outcome<()> {
+pub fn deliver(n: &mut FullNode, bytes: &[u8]) -> Outcome<()> {
     let block = decode_block(bytes);
     n.q_consensus.push_back(ConsensusEvent::BlockFetched { peer_index: 1, block });
     let r = n.step(Chan::Consensus).unwrap_or(Outcome::Done(()));
@@ -111,11 +111,11 @@ fn image_at(journal: &[JournalOp], k: usize) -> BTreeMap<String, Vec<u8>> {
     files
 }
 
-struct Restarted {
-    n: FullNode,
+pub struct Restarted {
+    pub n: FullNode,
 }
 
-fn restart(w: &World, image: BTreeMap<String, Vec<u8>>, delete_old: bool) -> Result<Restarted, String> {
+pub fn restart(w: &World, image: BTreeMap<String, Vec<u8>>, delete_old: bool) -> Result<Restarted, String> {
     let io = MemIO::with_files(image);
     let mut n = FullNode::new(key(9), node_cfg(w), io, ManualClock::new(6_000_000));
     n.consensus.delete_old_blocks = delete_old;
